@@ -317,6 +317,24 @@ def known_findings(prop: str):
     return [e for e in data.get("findings", []) if e.get("property") == prop]
 
 
+def known_or_violation(report: Report, prop: str, finding_id: str, holds: bool, detail: dict, what: str, tag: str):
+    """a directed probe for something that is recorded as an open finding: KNOWN-FINDING while it is listed open, a violation otherwise"""
+    report.coverage.setdefault("directed_probes", {})[finding_id] = dict(detail, holds=holds)
+    if holds:
+        return
+    listed = {e["id"]: e for e in known_findings(prop)}
+    entry = listed.get(finding_id)
+    if entry and entry.get("status") == "open":
+        report.known(f"{finding_id}: {entry['text']} ({detail})")
+    else:
+        report.violation({"kind": "counterexample", "what": what, **detail}, True, tag=tag)
+
+
+def nested_bytes(depth: int) -> bytes:
+    """the E5 encoding of <U1 7> wrapped in `depth` one-element lists"""
+    return bytes([1, 1]) * depth + bytes([0xA5, 1, 7])
+
+
 def prove(report: Report, prop: str, translators, extra_targets=()):
     """Steps 1+2 of a check: translate, build Props/<prop>.vo, record obligations.
 
